@@ -190,3 +190,18 @@ pub proof fn lemma_nested_blocks(e0: Expression, ids: Ids)
     reveal_with_fuel(has_ident, 4);
     reveal_with_fuel(wf, 3);
 }
+
+// ---- Matrix: structural facts about the cells (proved once)
+pub proof fn lemma_matrix_cells(e0: Expression, ids: Ids)
+    requires wf(e0, ids), e0 is Matrix,
+    ensures
+        ({
+            let cols = e0->Matrix_0;
+            let rows = e0->Matrix_1;
+            forall|a: int, b: int| 0 <= a < rows.len() && 0 <= b < rows[a].len() ==> rows[a].len() == cols.len()
+                && ((#[trigger] rows[a][b]) is Some ==> solvable(rows[a][b]->Some_0) && wf(rows[a][b]->Some_0, ids)
+                    && lvl(rows[a][b]->Some_0) == 0 && decreases_to!(e0 => rows[a][b]->Some_0)
+                    && cell_keys_ok(rows[a][b]->Some_0, ids, cols.len() as nat))
+        }),
+{
+}
